@@ -30,7 +30,9 @@ type dumpFacts struct {
 	depth                                                                                           int
 }
 
-var dumpStrings = []string{"", "a", "abc", "测试", "x y", "a/b", "é😀", "key:1", "[1,2]", "{}", "null", "true", "1e3"}
+// (none of these contains a character that JSON must escape: no '"', no '\\', nothing below U+0020)
+var dumpStrings = []string{"", "a", "abc", "测试", "x y", "a/b", "é😀", "key:1", "[1,2]", "{}", "null", "true", "1e3",
+	"\x7f", "a\x7fb", "\U000E0001", "tag\U000E0041", "\U000F0000", "\u2028", "\ufeff", "\u00a0", "\u200b", "ｆｕｌｌ", "<>&", "'", "%s%d", strings.Repeat("长", 300)}
 var dumpFloats = []float64{0, 1, -1, 0.5, 1.5, 0.1, 1e-9, -1e-9, 123456.789, 1e15, -1e15, 3.141592653589793, 1e6, 255.255, 0.30000000000000004}
 
 func genDumpScalar(t *rapid.T, facts *dumpFacts) (desc.T, desc.V) {
@@ -103,17 +105,31 @@ func genDumpType(t *rapid.T, depth, maxDepth int, facts *dumpFacts, inCollection
 		return desc.Slice(et), v
 	case "map":
 		et, _ := genDumpType(t, depth+1, maxDepth, facts, true)
-		kk := rapid.SampledFrom([]string{"string", "string", "int", "uint8", "int64"}).Draw(t, "keyKind")
+		kk := rapid.SampledFrom([]string{"string", "string", "int", "uint8", "int64", "uint64", "uint", "int8", "uint32"}).Draw(t, "keyKind")
 		n := rapid.IntRange(-1, 3).Draw(t, "entries")
 		v := desc.V{Nil: n < 0}
 		for i := 0; i < n; i++ {
-			if kk == "string" {
+			switch {
+			case kk == "string":
 				facts.strKeyMap = true
-				v.K = append(v.K, desc.Str([]string{"a", "键", "k 3"}[i]))
-			} else if kk == "uint8" {
-				v.K = append(v.K, desc.V{U: uint64(i * 100)})
-			} else {
-				v.K = append(v.K, desc.V{I: int64(i*5 - 5)})
+				if rapid.IntRange(0, 3).Draw(t, "oddKey") == 0 {
+					v.K = append(v.K, desc.Str([]string{"\x7f", "\U000E0001k", "键\u2028"}[i]))
+				} else {
+					v.K = append(v.K, desc.Str([]string{"a", "键", "k 3"}[i]))
+				}
+			case strings.HasPrefix(kk, "uint"):
+				// the extremes of the key type
+				u := []uint64{0, math.MaxUint64, 1 << 63}[i]
+				if rapid.Bool().Draw(t, "smallKey") {
+					u = uint64(i * 100)
+				}
+				v.K = append(v.K, desc.V{U: clampUint(kk, u)})
+			default:
+				x := []int64{math.MinInt64, -1, math.MaxInt64}[i]
+				if rapid.Bool().Draw(t, "smallKey") {
+					x = int64(i*5 - 5)
+				}
+				v.K = append(v.K, desc.V{I: clampInt(kk, x)})
 			}
 			v.E = append(v.E, genDumpValue(t, et, facts, true))
 		}
